@@ -28,7 +28,10 @@ def replay(path):
     ov = driver.Overlay(spec["property"] + "-replay")
     ov.create([])
     try:
-        ok, log = native_replay_c17(ov, spec["model"], spec["obligation"])
+        if spec.get("kind") == "cfg":
+            ok, log = native_replay_child(ov)
+        else:
+            ok, log = native_replay_c17(ov, spec["model"], spec["obligation"])
         print(log[-1500:])
         if ok is None:
             print("replay: could not run")
@@ -47,6 +50,7 @@ def dump_mir(ov_root, ms):
     target = os.path.join(VERIF, ".cache", "mir-target")
     env = dict(os.environ)
     env["CARGO_NET_OFFLINE"] = "true"
+    env["CARGO_INCREMENTAL"] = "0"  # with incremental compilation an unchanged function is not rebuilt, hence not dumped
     env.pop("RUSTFLAGS", None)
     # touch the crate root so that rustc really runs (a fresh cache hit would emit no dump)
     root = os.path.join(src, ms["crate_dir"], "src", "lib.rs")
@@ -236,6 +240,8 @@ mod verif_replay_c17 {{
 
 
 def worker(ms, ov_root, pid, tier, out_json):
+    if ms.get("kind") == "cfg":
+        return worker_cfg(ms, ov_root, pid, tier, out_json)
     import z3
     sys.path.insert(0, os.path.dirname(os.path.abspath(__file__)))
     from mirsmt import Mir, Executor, Unsupported
@@ -339,6 +345,172 @@ def worker(ms, ov_root, pid, tier, out_json):
         json.dump(dict(property=pid, obligation=ob["name"], desc=ob["desc"], model=ob["model"], function=ms["function"],
                        how="cd /verif && ./check --replay " + os.path.relpath(path, VERIF)), open(path, "w"), indent=1)
         ob["replay"] = path
+    json.dump(res, open(out_json, "w"), indent=1)
+
+
+def native_replay_child(ov):
+    """End-to-end: a link that must fail (undefined symbol), run through the forking front end, must not exit 0."""
+    env = dict(os.environ)
+    env["CARGO_NET_OFFLINE"] = "true"
+    env["CARGO_TARGET_DIR"] = os.path.join(VERIF, ".cache", "replay-target")
+    env.pop("RUSTFLAGS", None)
+    r = subprocess.run(["cargo", "build", "--offline", "-p", "wild-linker"], cwd=ov.src, env=env, capture_output=True, text=True, timeout=2400)
+    if r.returncode != 0:
+        return None, "build failed: " + r.stderr[-800:]
+    wild = os.path.join(env["CARGO_TARGET_DIR"], "debug", "wild")
+    work = os.path.join(ov.root, "e2e")
+    os.makedirs(work, exist_ok=True)
+    with open(os.path.join(work, "a.c"), "w") as f:
+        f.write("void missing_symbol(void); void _start(void) { missing_symbol(); }\n")
+    c = subprocess.run(["gcc", "-c", "-ffreestanding", "-fno-pic", "a.c", "-o", "a.o"], cwd=work, capture_output=True, text=True)
+    if c.returncode != 0:
+        return None, "gcc failed: " + c.stderr[-400:]
+    e = dict(os.environ)
+    e.pop("WILD_NO_FORK", None)
+    run = subprocess.run([wild, "a.o", "-o", "out"], cwd=work, capture_output=True, text=True, env=e, timeout=120)
+    log = f"wild a.o -o out (undefined symbol, fork mode): exit status {run.returncode}; stderr: {run.stderr.strip()[:300]}"
+    return run.returncode == 0, log
+
+
+def worker_cfg(ms, ov_root, pid, tier, out_json):
+    import z3
+    sys.path.insert(0, os.path.dirname(os.path.abspath(__file__)))
+    from cfgsmt import Cfg, path_query
+    res = dict(name=ms["name"], function=ms["function"], obligations=[], samples=[], solver_time_s=0.0, nontrivial=0)
+    try:
+        text = dump_mir(ov_root, ms)
+        cfg = Cfg(text)
+
+        def one(pattern, what):
+            bs = cfg.blocks_calling(pattern)
+            if len(bs) != 1:
+                raise RuntimeError(f"expected exactly one call to {what}, found {len(bs)}")
+            return bs[0]
+        fork = one(r"(libc::)?fork", "fork")
+        sw = cfg.succ[fork][0]
+        tbl = cfg.switch.get(sw)
+        if not tbl or "0" not in tbl or "otherwise" not in tbl:
+            raise RuntimeError("fork() result is not dispatched by a switch with a 0 arm")
+        child = tbl["0"]
+        parent = tbl["otherwise"]
+        inform = one(r"(.*::)?inform_parent_done", "inform_parent_done")
+        steps = [("setup_tracing", r"(.*::)?setup_tracing"), ("activate_thread_pool", r".*activate_thread_pool"),
+                 ("Linker::run", r"(.*::)?Linker::run"), ("finalise_perfetto_trace", r".*finalise_perfetto_trace")]
+        step_blocks = {n: one(pat, n) for n, pat in steps}
+    except (RuntimeError, ValueError, KeyError) as e:
+        res["obligations"].append(dict(name=ms["name"], desc="CFG extraction from the MIR", status="error", detail=str(e)[:800]))
+        json.dump(res, open(out_json, "w"))
+        return
+    res["mir_blocks"] = len(cfg.names)
+    res["callees"] = sorted(set(c for _, c, _ in cfg.call.values()))
+    L = min(len(cfg.names), 60)
+    t_solver = [0.0]
+
+    def decide(solver):
+        t0 = time.time()
+        r = solver.check()
+        other = cvc5_check("(set-logic ALL)\n" + solver.to_smt2())
+        t_solver[0] += time.time() - t0
+        z = "sat" if r == z3.sat else "unsat" if r == z3.unsat else "unknown"
+        if other not in ("sat", "unsat", "unavailable") or (other != "unavailable" and other != z) or z == "unknown":
+            return "error", f"z3={z} cvc5={other}", None
+        if z == "sat":
+            m = solver.model()
+            path = []
+            for i in range(L):
+                v = m.eval(z3.Int(f"p{i}"), model_completion=True).as_long()
+                b = cfg.names[v]
+                if not path or path[-1] != b:
+                    path.append(b)
+            return "sat", "", " ".join(path)
+        return "unsat", "", None
+
+    def add(name, desc, status, **kw):
+        res["obligations"].append(dict(name=name, desc=desc, status=status, engines="z3+cvc5", **kw))
+
+    # vacuity: the success path exists
+    st, det, path = decide(path_query(cfg, child, inform, [], L))
+    if st == "sat":
+        res["nontrivial"] += 1
+        res["samples"].append(dict(witness="child arm reaches inform_parent_done", blocks=path))
+        add("c17_child_success_path_exists", "C17 the worker can reach inform_parent_done (vacuity witness)", "holds")
+    else:
+        add("c17_child_success_path_exists", "C17 the worker can reach inform_parent_done (vacuity witness)", "error", detail=det or "unreachable")
+    for n, _ in steps:
+        b = step_blocks[n]
+        st, det, path = decide(path_query(cfg, child, inform, [b], L))
+        add(f"c17_done_only_after_{n.replace('::', '_')}", f"C17 the success byte is sent only after {n} has run",
+            "holds" if st == "unsat" else ("violated" if st == "sat" else "error"), detail=det, path=path)
+        # the call's result must be consumed by `?` and the error edge must not reach the success byte
+        dest = cfg.call[b][0]
+        nxt = cfg.succ[b][0]
+        tb = None
+        cur = nxt
+        for _ in range(4):
+            c = cfg.call.get(cur)
+            if c and "Try>::branch" in c[1] and dest and re.search(rf"move {dest}\b", c[2]):
+                tb = cur
+                break
+            if len(cfg.succ.get(cur, [])) != 1:
+                break
+            cur = cfg.succ[cur][0]
+        if tb is None:
+            add(f"c17_{n.replace('::', '_')}_error_checked", f"C17 the result of {n} is checked with `?`", "violated",
+                detail="no Try::branch consumes the call's result")
+            continue
+        swb = cfg.succ[tb][0]
+        arms = cfg.switch.get(swb, {})
+        if "1" not in arms:
+            add(f"c17_{n.replace('::', '_')}_error_checked", f"C17 the result of {n} is checked with `?`", "error", detail="no Break arm")
+            continue
+        st, det, path = decide(path_query(cfg, arms["1"], inform, [], L))
+        add(f"c17_{n.replace('::', '_')}_error_checked", f"C17 an error from {n} never leads to the success byte",
+            "holds" if st == "unsat" else ("violated" if st == "sat" else "error"), detail=det, path=path)
+        if st == "unsat":
+            res["nontrivial"] += 1
+    # parent arm: exit status of wait_for_child_done is passed on unchanged
+    try:
+        w = [b for b, (_, c, _) in cfg.call.items() if re.fullmatch(r"(.*::)?wait_for_child_done", c)]
+        ok = False
+        if len(w) == 1:
+            dest = cfg.call[w[0]][0]
+            nb = cfg.succ[w[0]][0]
+            body = " ".join(cfg.blocks[nb]["lines"])
+            m = re.search(r"_(\d+) = (?:copy|move) " + re.escape(dest) + r";", body)
+            alias = f"_{m.group(1)}" if m else dest
+            ok = bool(re.search(r"_0 = std::result::Result::<i32, [^>]*>::Ok\((?:copy|move) (" + re.escape(dest) + "|" + re.escape(alias) + r")\)", body))
+            st, det, path = decide(path_query(cfg, parent, w[0], [], L))
+            ok = ok and st == "sat"
+        add("c17_parent_passes_status_on", "C17 the parent returns exactly the status computed by wait_for_child_done",
+            "holds" if ok else "violated", detail="" if ok else "pattern `_0 = Ok(move <wait_for_child_done result>)` not found on the parent arm")
+    except Exception as e:
+        add("c17_parent_passes_status_on", "C17 the parent returns exactly the status computed by wait_for_child_done", "error", detail=str(e)[:300])
+    res["solver_time_s"] = round(t_solver[0], 3)
+    # native replay of violations: a failing link through the forking front end must not exit 0
+    known = []
+    try:
+        known = json.load(open(os.path.join(VERIF, "known_findings.json"))).get("findings", [])
+    except Exception:
+        pass
+    import driver
+    viol = [o for o in res["obligations"] if o["status"] == "violated"
+            and not any(k.get("status") == "known" and k["property"] == pid and k.get("harness") == o["name"] for k in known)]
+    if viol:
+        ov = driver.Overlay(pid + "-mirreplay")
+        ov.create([])
+        try:
+            ok, log = native_replay_child(ov)
+        finally:
+            ov.remove()
+        d = os.path.join(VERIF, "replays", pid)
+        os.makedirs(d, exist_ok=True)
+        for o in viol:
+            o["reproduced"] = bool(ok)
+            o["replay_log"] = (log or "")[-600:]
+            path = os.path.join(d, o["name"] + ".json")
+            json.dump(dict(property=pid, obligation=o["name"], desc=o["desc"], kind="cfg", cfg_path=o.get("path"), function=ms["function"],
+                           end_to_end=log, how="cd /verif && ./check --replay " + os.path.relpath(path, VERIF)), open(path, "w"), indent=1)
+            o["replay"] = path
     json.dump(res, open(out_json, "w"), indent=1)
 
 
